@@ -475,7 +475,7 @@ def main(argv: Sequence[str] | None = None) -> int:
             source = format_code(source, preserve=preserve, safe=args.safe)
         finally:
             sys.stdout = sys_stdout
-        print(source)
+        print(source, end="")  # The text as it is, print would add a line break
         return 0
 
     filenames = tuple(_iter_python_files(args.paths))
